@@ -425,8 +425,15 @@ func symConv(dst types.BasicKind, x *Sym) value {
 		neg := sym.Lt(x.T, sym.RealF(0))
 		tr := sym.Ite(neg, sym.Neg(sym.ToIntFloor(sym.Neg(x.T))), fl)
 		lo, hi := kindLo[dst], kindHi[dst]
-		inRange := sym.And(sym.Le(sym.IntBig(lo), tr), sym.Le(tr, sym.IntBig(hi)))
+		// trunc(x) in [lo, hi]  <=>  lo-1 < x < hi+1 (stated on the real so that the query has no to_int)
+		inRange := sym.And(sym.Lt(sym.ToReal(sym.IntBig(new(big.Int).Sub(lo, big.NewInt(1)))), x.T),
+			sym.Lt(x.T, sym.ToReal(sym.IntBig(new(big.Int).Add(hi, big.NewInt(1))))))
 		if !cx.Branch(inRange) {
+			// implementation-defined in Go; amd64 (CVTTSD2SQ), the platform the replay runs on, gives
+			// the "integer indefinite" value 0x8000000000000000 for every out-of-range int64 conversion
+			if dst == types.Int64 || dst == types.Int {
+				return mkSymInt(sym.IntBig(kindLo[types.Int64]), dst)
+			}
 			Unsupported("float to int conversion out of range")
 		}
 		return mkSymInt(tr, dst)
